@@ -1457,6 +1457,31 @@ impl Registry {
             });
     }
 
+    /// The interfaces implemented by type `name`: the ones it declares
+    /// followed by the ones these implement in turn.
+    pub(crate) fn all_implements(&self, name: &str) -> IndexSet<&str> {
+        let mut interfaces: IndexSet<&str> = self
+            .implements
+            .get(name)
+            .into_iter()
+            .flatten()
+            .map(String::as_str)
+            .collect();
+        let mut next = 0;
+        while next < interfaces.len() {
+            let inherited = self.implements.get(interfaces[next]);
+            interfaces.extend(
+                inherited
+                    .into_iter()
+                    .flatten()
+                    .map(String::as_str)
+                    .filter(|interface| *interface != name),
+            );
+            next += 1;
+        }
+        interfaces
+    }
+
     pub fn add_keys(&mut self, ty: &str, keys: impl Into<String>) {
         let all_keys = match self.types.get_mut(ty) {
             Some(MetaType::Object { keys: all_keys, .. }) => all_keys,
